@@ -54,8 +54,16 @@ def main(tier, replay=None):
                            ("std-be", ("-O0",), True), ("std-be", ("-O2",), True),
                            ("opt", ("-O0",), False), ("opt", ("-O2",), False),
                            ("opt-be", ("-O0",), True), ("opt-be", ("-O2",), True)]
+            import shutil as _shutil
+            if _shutil.which("clang") is not None:
+                # big-endian memory semantics for every integer object (bpverif/beir.py): the decode of every signed
+                # width is decided under it as well
+                configs = configs + [("std-trueBE", ("-O0",), True), ("opt-trueBE", ("-O0",), True)]
             for mode, cflags, be in configs:
-                builder = cdrive.CBuilder(scratch, cflags=cflags, defines=(("BP_BIG_ENDIAN",) if be else ()))
+                if mode.endswith("trueBE"):
+                    builder = cdrive.BEBuilder(scratch)
+                else:
+                    builder = cdrive.CBuilder(scratch, cflags=cflags, defines=(("BP_BIG_ENDIAN",) if be else ()))
                 cases = []
                 for T in types:
                     key = "%s%s" % (T["k"], T.get("n", ""))
@@ -70,9 +78,9 @@ def main(tier, replay=None):
                     if lib is None:
                         continue
                     T = c.note["T"]
-                    be_storage = (mode == "std-be")
+                    be_storage = mode in ("std-be", "std-trueBE", "opt-trueBE")
                     want = ["enc", "widths"]
-                    if not (be_storage and T["k"] == "int" and not std_width(T)):
+                    if not (mode == "std-be" and T["k"] == "int" and not std_width(T)):
                         want.append("dec")
                     cwire.drive_case(c, lib, worker, want=tuple(want), be=be_storage)
                     rep.feature("c:%s:%s" % (mode, "".join(cflags)))
@@ -83,6 +91,7 @@ def main(tier, replay=None):
     rep.cov["rule"] = ("complete space {bool, byte, uint1..64, int1..64} x start offsets 0..7 x {scalar, aliased scalar, "
                        "array element (cap 5: batch path for 8/16/32/64), aliased array, array of alias} x basis values "
                        "{0, all ones, each single bit, min, max} (quick tier: reduced bit set) plus mixed random "
-                       "values; runtimes: Python, C standard mode LE and -DBP_BIG_ENDIAN, C -O mode both branches; "
+                       "values; runtimes: Python, C standard mode LE and -DBP_BIG_ENDIAN, C -O mode both branches, and both C modes "
+                       "built with big-endian memory semantics (clang IR, byte-swapped integer accesses); "
                        "distinct_nontrivial counts distinct leaf types")
     return rep.finish()
